@@ -17,10 +17,11 @@ point between two persistence events of every workload".
   finds reads like the first `k` issued commits, `acked ≤ k ≤ issued` (whole transactions only).
 * `C08_kill_safe_events` — the same, phrased over the emitted `FsOp` sequence cut after any
   number `n` of persistence events.
-* `C08_syscall_statement` is the same claim for cuts between any two *system calls*; it is
-  **false** (finding F22): `z.OpenMmapFile` creates a log file with `open(O_CREAT)` and sizes it
-  with a second call, `z.MmapFile.Delete` truncates to 0 before unlinking, and `Open` refuses a
-  zero-length `.mem` / `.vlog` file (`C08_syscall_counterexample`).
+* `C08_syscall_oldStatement` is the same claim for cuts between any two *system calls* and the
+  `Open` of before the repair of finding F22; it is **false**: `z.OpenMmapFile` creates a log
+  file with `open(O_CREAT)` and sizes it with a second call, `z.MmapFile.Delete` truncates to 0
+  before unlinking, and `Open` refused a zero-length `.mem` / `.vlog` file
+  (`C08_syscall_counterexample`). `C08_f22_repaired`: the repaired `Open` accepts both images.
 -/
 namespace Badger
 
@@ -82,45 +83,62 @@ theorem C08_kill_safe_events (R : ViewRel) (c : Cfg) (h : List Sched) (hok : His
   rw [exec_fs, ← atoms_take] at this
   exact this
 
-/-! ### the syscall-level statement is false (F22) -/
+/-! ### crash points between any two system calls (finding F22, repaired) -/
 
 def isError {ε α : Type} : Except ε α → Bool
   | .error _ => true
   | .ok _ => false
 
-/-- C08 with crash points between any two system calls -/
-def C08_syscall_statement : Prop :=
-  ∀ (c : Cfg) (h : List Sched) (n : Nat),
-    isError (recover false (crashKill ((MState.init c).fs.run (((MState.init c).p.atoms h).flatten.take n)))) = false
-
-/-- the witness: a memtable rotation, killed between `open(O_CREAT)` and `ftruncate` of the new
-    `.mem` file (inside `z.OpenMmapFile`): `Open` answers "while opening fid: 2 … Create a new
-    file". Replay: corpus/C08/f22.ops. -/
-def f22History : List Sched := [.flushReq, .w, .w]
-
 def errOf {α : Type} : Except RecErr α → Option RecErr
   | .error e => some e
   | .ok _ => none
 
-theorem C08_f22_witness :
-    errOf (recover false (crashKill ((MState.init {}).fs.run (((MState.init {}).p.atoms f22History).flatten.take 1))))
-      = some (.zeroLengthLog (.mem 2)) := by
-  decide
+/-- C08 with crash points between any two system calls, for the code as it is: `Open` never
+    fails. (`create p; extend p` and `truncate p 0; unlink p` are single persistence events but
+    two system calls; between them a log file has length zero.) Stated, checked on the two
+    F22 scenarios below and by the harness on every such image; the general proof (the
+    invariant of `C08_kill_safe` at system-call granularity) is not done. -/
+def C08_syscall_statement : Prop :=
+  ∀ (c : Cfg) (h : List Sched) (n : Nat),
+    isError (recover false (crashKill ((MState.init c).fs.run (((MState.init c).p.atoms h).flatten.take n)))) = false
 
-theorem C08_syscall_counterexample : ¬ C08_syscall_statement := by
+/-- the same claim for `Open` before the repair of F22 (a zero-length `.mem` / `.vlog` file was
+    an error: `recoverOld`) -/
+def C08_syscall_oldStatement : Prop :=
+  ∀ (c : Cfg) (h : List Sched) (n : Nat),
+    isError (recoverOld false (crashKill ((MState.init c).fs.run (((MState.init c).p.atoms h).flatten.take n)))) = false
+
+/-- the regression witness: a memtable rotation, killed between `open(O_CREAT)` and `ftruncate`
+    of the new `.mem` file (inside `z.OpenMmapFile`): the old `Open` answered "while opening fid:
+    2 … Create a new file". Replay: corpus/C08/f22.ops. -/
+def f22History : List Sched := [.flushReq, .w, .w]
+
+theorem C08_f22_witness :
+    errOf (recoverOld false (crashKill ((MState.init {}).fs.run (((MState.init {}).p.atoms f22History).flatten.take 1))))
+      = some (.zeroLengthLog (.mem 2)) := by
+  decide +kernel
+
+theorem C08_syscall_counterexample : ¬ C08_syscall_oldStatement := by
   intro h
   have h1 := h {} f22History 1
   have h2 := C08_f22_witness
-  cases hr : recover false (crashKill ((MState.init {}).fs.run (((MState.init {}).p.atoms f22History).flatten.take 1))) with
+  cases hr : recoverOld false (crashKill ((MState.init {}).fs.run (((MState.init {}).p.atoms f22History).flatten.take 1))) with
   | error e => rw [hr] at h1; simp [isError] at h1
   | ok r => rw [hr] at h2; simp [errOf] at h2
 
 /-- the second half of F22: a kill between `ftruncate(0)` and `unlink` inside
     `z.MmapFile.Delete` of a flushed WAL -/
 theorem C08_f22_witness_delete :
-    isError (recover false (crashKill ((MState.init {}).fs.run
+    isError (recoverOld false (crashKill ((MState.init {}).fs.run
       (((MState.init {}).p.atoms [.flushReq, .w, .w, .w, .w, .f]).flatten.take 5))) ) = true := by
-  decide
+  decide +kernel
+
+/-- after the repair both images open -/
+theorem C08_f22_repaired :
+    isError (recover false (crashKill ((MState.init {}).fs.run (((MState.init {}).p.atoms f22History).flatten.take 1)))) = false ∧
+    isError (recover false (crashKill ((MState.init {}).fs.run
+      (((MState.init {}).p.atoms [.flushReq, .w, .w, .w, .w, .f]).flatten.take 5)))) = false := by
+  decide +kernel
 
 /-! ### non-vacuity -/
 
